@@ -44,6 +44,7 @@ fn main() {
                 let max_usage = match kind {
                     Kind::Gpu => 6,
                     Kind::NetBuf => 7,
+                    Kind::Sound => 4,
                     _ => 3,
                 };
                 for usage in 0..=max_usage {
